@@ -140,6 +140,10 @@ class CallMixin(object):
         return iter([(st, self.call_pred(st, cx, callee.name, args, node))])
       if k == 'specbuiltin':
         return iter([(st, self.spec_fn(st, cx, callee.name, args, node))])
+      if k == 'ghostassume':
+        st.assume(self.truth(st, args[0]))
+        self.assumes.append('%s: assume(%s)' % (cx.qual, ast.unparse(node.args[0]) if node is not None else '?'))
+        return iter([(st, NONE_V)])
       if k == 'extern':
         return self.call_extern(st, cx, callee.name, callee.recv, args, kwargs, node)
       if k == 'repo':
@@ -154,6 +158,8 @@ class CallMixin(object):
       return self.call_extern(st, cx, callee.name, None, args, kwargs, node)
     if isinstance(callee, VClass):
       return self.construct(st, cx, callee.name, args, kwargs, node)
+    if isinstance(callee, V) and callee.ty.k == 'ref' and (callee.ty.name + '.__call__') in self.reg.externs:
+      return self.call_extern(st, cx, callee.ty.name + '.__call__', callee, args, kwargs, node)
     if isinstance(callee, V) and callee.ty.k in ('fn', 'any'):
       return self.call_extern(st, cx, '<call>', callee, args, kwargs, node)
     raise Unsupported('call of %r (line %s)' % (callee, getattr(node, 'lineno', '?')))
@@ -245,7 +251,11 @@ class CallMixin(object):
     """Inline a side-effect-free function and merge its paths into one value."""
     s = st.fork()
     n0 = len(s.pc)
-    outs = list(self.inline_call(s, cx, fn, args, kwargs, None))
+    self.pure_depth += 1
+    try:
+      outs = list(self.inline_call(s, cx, fn, args, kwargs, None))
+    finally:
+      self.pure_depth -= 1
     vals = []
     for s1, v in outs:
       if isinstance(v, Exc):
@@ -495,10 +505,32 @@ class CallMixin(object):
       finally:
         st.frames.pop(fid, None)
     is_all = name.startswith('forall')
-    var = a[0].id
-    x = z3.Int(fresh_name(var))
     fid = fresh_name('q')
     trig_node = None
+    multi = isinstance(a[0], ast.Tuple)
+    if multi:
+      if not name.endswith('_ref'):
+        raise Unsupported('multi-variable quantifier only for forall_ref/exists_ref')
+      cname = a[1].id
+      ty = Ty('ref', (), cname)
+      xs = [z3.Int(fresh_name(e.id)) for e in a[0].elts]
+      st.frames[fid] = dict((e.id, V(ty, xv)) for e, xv in zip(a[0].elts, xs))
+      pats = []
+      try:
+        qcx = Ctx(cx.mod, cx.cls, [fid] + list(cx.chain), cx.spec, cx.qual)
+        body = self.ev1(a[2], st, qcx)
+        if len(a) > 3:
+          tn = a[3].elts if isinstance(a[3], ast.Tuple) else [a[3]]
+          pats = [self.ev1(t, st, qcx).t for t in tn]
+      finally:
+        st.frames.pop(fid, None)
+      b = self.truth(st, body)
+      kw = {}
+      if pats and all(_pattern_ok(p) for p in pats):
+        kw = {'patterns': [z3.MultiPattern(*pats)] if len(pats) > 1 else pats}
+      return V(BOOL, z3.ForAll(xs, b, **kw) if is_all else z3.Exists(xs, b, **kw))
+    var = a[0].id
+    x = z3.Int(fresh_name(var))
     if name.endswith('_ref'):
       cname = a[1].id
       ty = Ty('ref', (), cname)
